@@ -3,7 +3,8 @@
   Model: ILV.Model.Incr (`ILV.C18.step`, mirror of derived_relations.rs + the rule/materialisation
   paths of storage_engine/mod.rs). Helper lemmas: ILV.Lemmas.Incr.
 -/
-import ILV.Lemmas.Incr
+import ILV.Lemmas.IncrRun
+import ILV.Lemmas.IncrNoMat
 namespace ILV.Props.C18
 open ILV.C18
 
@@ -71,5 +72,63 @@ theorem C18_drop_relation_stale :
 theorem C18_edge_missing_stale :
     let s := run [.ins nF [[1]], .reg cBF, .idx, .mat nB 1, .ins nF [[2]]]
     answer (snapDb s) qB = [[1]] ∧ answer (fresh s) qB = [[1], [2]] := by decide
+
+/-! ### what does hold, for all histories -/
+
+/-- **Partial theorem.** Fix any set `B` of base-relation names. For EVERY history (any length, any
+    values, any mix of the 15 step kinds) that passes the decidable check `safe B` — rules read
+    relations of `B` only and their heads are outside `B`; clauses are not added/removed/replaced/
+    cleared under a valid materialisation; a relation is not dropped under a valid materialisation
+    reading it; a relation is materialised only when all its dependency edges are registered (and,
+    API contract, only a relation with clauses, with its complete extension) — every query on the
+    published snapshot returns exactly the fresh evaluation's answer. The four excluded situations
+    are the four known findings. -/
+theorem C18_partial (B : List Name) (h : List Step) (q : Atom) (hs : safe B init h = true) :
+    SetEq (answer (snapDb (run h)) q) (answer (fresh (run h)) q) :=
+  answers_agree (inv_run h hs) q
+
+/-- The invariant behind it (DESIGN: `valid m → m.tuples = PM(name)`): after every safe history every
+    valid materialisation equals the fresh evaluation of its relation. -/
+theorem C18_valid_is_fresh (B : List Name) (h : List Step) (hs : safe B init h = true)
+    (i : Inc) (n : Name) (m : Mat) (hi : (run h).inc = some i) (hm : aget i.mats n = some m)
+    (hv : m.valid = true) : SetEq m.tuples (fresh (run h) n) :=
+  valid_is_fresh (inv_run h hs) i n m hi hm hv
+
+/-- … and the published snapshot is always the current one. -/
+theorem C18_snapshot_current (B : List Name) (h : List Step) (hs : safe B init h = true) :
+    (run h).snap = mkSnap (run h) :=
+  (inv_run h hs).snap
+
+/-- **What the server can reach.** On the pinned tree nothing but the explicit
+    `materialize_derived_relation` call ever stores a materialisation (`auto_materialize_rule` fails),
+    and the protocol handler never makes that call. For EVERY history without `mat` steps and EVERY
+    rule set (derived-on-derived chains, recursion, anything the catalogue accepts) the published
+    snapshot is the current facts plus all rules, so the engine under test evaluates literally the
+    same program over the same tuples as a fresh evaluation. -/
+theorem C18_without_materialize (h : List Step) (hs : h.all (fun st => !(isMat st)) = true) :
+    snapDb (run h) = fresh (run h) ∧ ∀ i, (run h).inc = some i → validMats i = [] := by
+  have hI := nomat_runFrom h (s := init) ⟨rfl, fun i hi => by simp [init] at hi⟩ hs
+  refine ⟨nomat_snapDb hI, ?_⟩
+  intro i hi
+  simp [validMats, hI.empty i hi]
+
+/-- its hypothesis on DESIGN's original witness (no `mat` step), with incremental maintenance on. -/
+example : ([.idx, .ins nF [[1]], .reg cAF, .reg cBA, .ins nF [[2]], .q qB] : List Step).all
+    (fun st => !(isMat st)) = true := by decide
+
+/-- a non-trivial safe history: two clauses for `b` over `f`, `g`; materialised; used by a query while
+    valid (`[[1],[2]]` comes out of the merged snapshot, the prefix holds no rule); invalidated by an
+    insert into `g`; re-materialised; a base relation cleared by prefix. -/
+def safeHist : List Step :=
+  [.idx, .ins nF [[1]], .ins nG [[2]], .reg cBF, .reg cBG, .mat nB 1, .q qB, .ins nG [[3]], .q qB,
+   .mat nB 1, .clrp nF, .q qB]
+
+example : safe [nF, nG] init safeHist = true := by decide
+example : wellUsed init safeHist = true := by decide
+example : (run (safeHist.take 6)).snap.rules = [] ∧ answer (snapDb (run (safeHist.take 6))) qB = [[1], [2]] := by decide
+example : (run (safeHist.take 8)).inc.map validMats = some [] := by decide
+example : answer (snapDb (run safeHist)) qB = [[2], [3]] := by decide
+/-- the refutation witness is rejected by `safe` for every choice of `B` containing `f`: `b` reads `a`. -/
+example : safe [nF] init witness = false ∧ safe [nF, nA] init witness = false := by decide
 
 end ILV.Props.C18
